@@ -365,6 +365,40 @@ def _remap(x, loff, boff, poff):
     return out
 
 
+_GENERIC_PARAM = re.compile(r'\b([A-Za-z_][A-Za-z_0-9]*)/#(\d+)\b')
+
+
+def _split_generic_args(s):
+    s = (s or '').strip()
+    if s.startswith('[') and s.endswith(']'):
+        s = s[1:-1]
+    out, depth, cur = [], 0, ''
+    for ch in s:
+        if ch in '<([':
+            depth += 1
+        elif ch in '>)]':
+            depth -= 1
+        if ch == ',' and depth == 0:
+            out.append(cur.strip())
+            cur = ''
+        else:
+            cur += ch
+    if cur.strip():
+        out.append(cur.strip())
+    return out
+
+
+def _subst_generics(x, args):
+    """instantiate the type parameters (`T/#0`) of a spliced-in generic helper with the call site's arguments"""
+    if isinstance(x, list):
+        return [_subst_generics(y, args) for y in x]
+    if isinstance(x, dict):
+        return {k: _subst_generics(v, args) for k, v in x.items()}
+    if isinstance(x, str) and '/#' in x:
+        return _GENERIC_PARAM.sub(lambda m: args[int(m.group(2))] if int(m.group(2)) < len(args) else m.group(0), x)
+    return x
+
+
 def inline_new_helpers(fns_by_path, pinned, max_inlines=60, max_callee_blocks=400):
     """fns_by_path: {path: fn json} of one crate.  Splices every call to a function that is not in `pinned`
     (and is a plain fn / method with a body in the same crate) into its caller.  Returns {caller: [helpers]}."""
@@ -395,14 +429,19 @@ def inline_new_helpers(fns_by_path, pinned, max_inlines=60, max_callee_blocks=40
             for l in cj['locals']:
                 l2 = dict(l)
                 l2['i'] = l['i'] + loff
+                if '/#' in l2.get('ty', ''):
+                    l2['ty'] = _subst_generics(l2['ty'], _split_generic_args(c.get('generic_args')))
                 l2['inl'] = cp
                 j['locals'].append(l2)
             for pr in cj.get('promoted') or []:
                 pr2 = copy.deepcopy(pr)
                 pr2['i'] = pr['i'] + poff
                 j.setdefault('promoted', []).append(pr2)
+            gargs = _split_generic_args(c.get('generic_args'))
             for cb in cj['blocks']:
                 nb = _remap(cb, loff, boff, poff)
+                if gargs:
+                    nb = _subst_generics(nb, gargs)
                 nb['i'] = cb['i'] + boff
                 nb['inl'] = stack
                 tt = nb['term']
@@ -996,6 +1035,11 @@ class AbsInt:
                     if ab[0][0] == 'enum' and ab[1][0] == 'enum' and ab[0][1] == ab[1][1]:
                         eq_ = ab[0][2] == ab[1][2]
                         res = ('int', int(eq_ != name.endswith('ne')), 'bool')
+                    elif name.startswith(('<core::option::Option<', 'core::cmp::')) or 'core::option::Option' in name:
+                        # Option<constant> values: equal iff same variant and same constant payload
+                        eq_ = const_eq(ab[0], ab[1])
+                        if eq_ is not None:
+                            res = ('int', int(eq_ != name.endswith('ne')), 'bool')
                 if res is None and name.endswith('Try>::branch') and argvals and argvals[0][0] == 'agg' and \
                         argvals[0][1] in ('core::result::Result', 'core::option::Option') and argvals[0][2] in ('Ok', 'Err', 'Some', 'None'):
                     a0 = argvals[0]
@@ -1074,6 +1118,27 @@ class AbsInt:
 # ----------------------------------------------------------------------------------------
 # symbolic-value tree helpers
 # ----------------------------------------------------------------------------------------
+def const_eq(a, b):
+    """True/False when both values are fully constant (ints, field-less enum values, Option aggregates of those), else None"""
+    def norm(v):
+        if not isinstance(v, tuple) or not v:
+            return None
+        if v[0] == 'int':
+            return ('int', v[1])
+        if v[0] == 'enum':
+            return ('enum', v[1], v[2], ())
+        if v[0] == 'agg':
+            xs = tuple(norm(x) for x in v[3])
+            if any(x is None for x in xs):
+                return None
+            return ('enum', v[1], v[2], xs)
+        return None
+    na, nb = norm(a), norm(b)
+    if na is None or nb is None:
+        return None
+    return na == nb
+
+
 def uncast(v):
     while isinstance(v, tuple) and v and v[0] == 'cast':
         v = v[1]
